@@ -80,6 +80,26 @@ def literal_modules():
     for ci, c in enumerate(STR_CTX):
         for v in STRS:
             out.append(('str:%d:%s' % (ci, v), c.replace('%s', v) + '\n'))
+    out += debug_specifier_modules()
+    return out
+
+
+def debug_specifier_modules():
+    """f-strings whose literal text ends with `<text>=` in front of a replacement field - the printer may abbreviate that to the 3.8+ form
+    f'{expr=}' - for every pair of a text and a value expression taken from classes of literals that compare equal but are different
+    programs (3, 3.0, True, 1, 1.0, 1+0j, ...), names, and with every conversion / a format spec"""
+    texts = ['3', '3.0', '3.', ' 3', '3 ', '(3)', '1', '1.0', 'True', '1+0j', '1e0', '0x1', '0', '-0', '0.0', '-0.0', 'False', "'a'", '"a"', 'a', 'a ', 'a.b', 'a[0]', 'a+1', 'a +1',
+             'None', 'x=1', '', '=']
+    values = ['3', '3.0', '1', '1.0', 'True', '(1+0j)', '0', '-0', '0.0', '-0.0', 'False', "'a'", 'a', 'a.b', 'a[0]', 'a+1', 'None']
+    out = []
+    for ti, t in enumerate(texts):
+        for vi, v in enumerate(values):
+            for ci, conv in enumerate(('!r', '', '!s', '!a', '!r:>4', ':>4')):
+                if '"' in t + v:
+                    src = "x=f'%s={%s%s}'\n" % (t, v, conv)
+                else:
+                    src = 'x=f"%s={%s%s}"\n' % (t, v, conv)
+                out.append(('dbgspec:%d:%d:%d' % (ti, vi, ci), src))
     return out
 
 
@@ -146,6 +166,8 @@ def run(args, rep):
                     continue
                 reqs.append({'op': 'roundtrip', 'id': tid + '|' + v, 'src_b64': inputs.b64(text.encode('utf-8')), 'as_bytes': False})
             for tid, text in lits:
+                if tid.startswith('dbgspec:') and v not in deep_versions:
+                    continue
                 reqs.append({'op': 'roundtrip', 'id': tid + '|' + v, 'src_b64': inputs.b64(text.encode('utf-8')), 'as_bytes': False})
         mods = inputs.shapes(v)
         g, _s1 = corpus.grammar(v, 8 if args.tier == 'quick' else None)
